@@ -4,6 +4,7 @@
 //   fsink  : FileSink mode table on real files (absent / empty / short / long) and content after a run          (C17)
 //   s2pdu  : StreamToPdu one-shot vs drip-fed, dense adversarial burst tags (inside the tail, duplicates)        (C08, C15)
 //   auenc  : AuEncode header + big-endian PCM16 for every schedule, incl. encoder called before any input       (C14, C09)
+//   il2p   : Il2pDeframer one-shot vs drip-fed on random bits with sync tags (header count), no panic               (C08, C15)
 //   tcp    : TcpSource over a loopback socket with exact control of the read segmentation                      (C14)
 use rustradio::block::{Block, BlockRet};
 use rustradio::blocks::*;
@@ -337,6 +338,47 @@ fn run_tcp(seed: u64) -> Result<u64, Fail> {
     Ok(works)
 }
 
+// ------------------------------------------------------------------------------------------------ il2p
+fn run_il2p(seed: u64) -> Result<u64, Fail> {
+    let t = "il2p";
+    let mut rng = Rng(seed * 2750159 + 9);
+    let n = 4000;
+    // bits only: a byte > 1 makes the LFSR assert (known finding F11)
+    let data: Vec<u8> = (0..n).map(|_| (rng.next() & 1) as u8).collect();
+    // sync tags: sparse, sometimes closer together than one header (120 bits), sometimes with a foreign key
+    let mut marks: std::collections::BTreeMap<usize, Vec<(String, TagValue)>> = Default::default();
+    let mut i = 0;
+    while i < n {
+        i += rng.pick(&[1, 7, 60, 119, 120, 121, 300, 500]);
+        let key = if rng.below(6) == 0 { "other" } else { "sync" };
+        marks.entry(i).or_default().push((key.into(), TagValue::Bool(true)));
+    }
+    let tagf = |i: usize| marks.get(&i).cloned().unwrap_or_default();
+    let mut counts = vec![];
+    let mut works = 0;
+    for drip in [false, true] {
+        let (w, r) = new_stream::<u8>();
+        let (mut b, o) = Il2pDeframer::new(r);
+        let mut pos = 0;
+        let mut pdus = 0usize;
+        let mut idle = 0;
+        while idle < 3 {
+            let fed = feed(&w, &data, &mut pos, if drip { rng.pick(&[0, 1, 2, 5, 40, 119, 121]) } else { usize::MAX }, &tagf);
+            let v = work(t, seed, &mut b)?;
+            works += 1;
+            while o.pop().is_some() {
+                pdus += 1;
+            }
+            idle = if pos == data.len() && fed == 0 && v != 0 { idle + 1 } else { 0 };
+        }
+        counts.push(pdus);
+    }
+    if counts[0] != counts[1] {
+        return Err(fail(t, "C08", "headers-independent-of-chunking", format!("{} headers decoded one-shot, {} drip-fed, same bits and sync tags", counts[0], counts[1]), seed));
+    }
+    Ok(works)
+}
+
 // ------------------------------------------------------------------------------------------------ wpcr
 fn run_wpcr(seed: u64) -> Result<u64, Fail> {
     use rustradio::stream::new_nocopy_stream;
@@ -393,7 +435,7 @@ fn bx_io() {
             }
         }
     }));
-    let targets = std::env::var("BX_TARGETS").unwrap_or_else(|_| "rtlsdr,fsink,s2pdu,auenc,tcp,wpcr".into());
+    let targets = std::env::var("BX_TARGETS").unwrap_or_else(|_| "rtlsdr,fsink,s2pdu,auenc,tcp,wpcr,il2p".into());
     let n: u64 = std::env::var("BX_N").ok().and_then(|s| s.parse().ok()).unwrap_or(40);
     let base: u64 = std::env::var("VERIF_SEED").ok().and_then(|s| s.parse().ok()).unwrap_or(1);
     let mut failed = false;
@@ -410,6 +452,7 @@ fn bx_io() {
                 "auenc" => run_auenc(seed),
                 "tcp" => run_tcp(seed),
                 "wpcr" => { if i > 0 { break; } run_wpcr(seed) }
+                "il2p" => run_il2p(seed),
                 _ => Ok(0),
             };
             runs += 1;
